@@ -1,6 +1,7 @@
 package main
 
 import (
+	"sync"
 	"fmt"
 	"strconv"
 	"strings"
@@ -91,6 +92,69 @@ func batchesTok(bs [][]int64) string {
 	return strings.Join(parts, " ")
 }
 
+// countingStalled: the window goroutine is held inside the callback of its first batch while the
+// producer keeps adding far more rows than the trigger channel holds (capacity 4), then released.
+// Add must hand the rows over in order whatever the consumer's speed ("all schedules of the ingest and
+// window goroutines"): the batch sequence must still be the model's.
+func countingStalled(n, ncols int, rows []grow) ([][]int64, error) {
+	release := make(chan struct{})
+	first := true
+	var out [][]int64
+	var mu sync.Mutex
+	cfg := types.WindowConfig{Type: "counting", Params: []any{n}, GroupByKeys: keyNames(ncols),
+		PerformanceConfig: types.PerformanceConfig{BufferConfig: types.BufferConfig{WindowOutputSize: 4}}}
+	cfg.Callback = func(b []types.Row) {
+		if first {
+			first = false
+			<-release
+		}
+		ids := make([]int64, len(b))
+		for i, r := range b {
+			ids[i] = rowID(r)
+		}
+		mu.Lock()
+		out = append(out, ids)
+		mu.Unlock()
+	}
+	cw, err := window.NewCountingWindow(cfg)
+	if err != nil {
+		return nil, err
+	}
+	cw.Start()
+	defer cw.Stop()
+	go func() { // drain the output channel so that sendResult never has to drop
+		for range cw.OutputChan() {
+		}
+	}()
+	done := make(chan struct{})
+	go func() {
+		for _, r := range rows {
+			cw.Add(r.toMap())
+		}
+		close(done)
+	}()
+	time.Sleep(30 * time.Millisecond)
+	close(release)
+	select {
+	case <-done:
+	case <-time.After(waitLimit(5 * time.Second)):
+	}
+	want := expectedBatches(rows, n)
+	for i := 0; i < 300; i++ {
+		mu.Lock()
+		got := len(out)
+		mu.Unlock()
+		if got >= want {
+			break
+		}
+		time.Sleep(10 * time.Millisecond)
+	}
+	time.Sleep(20 * time.Millisecond)
+	mu.Lock()
+	defer mu.Unlock()
+	return out, nil
+}
+
 func runC09(tier string, seed uint64, o *Out) error {
 	rng := NewRNG(seed)
 	nAPI, nSQL := 1500, 400
@@ -122,6 +186,31 @@ func runC09(tier string, seed uint64, o *Out) error {
 		}
 		o.Line("C09 W %d %d %d %s # %s", n, ncols, len(rows), rowsTok(rows), batchesTok(bs))
 		o.Count(fmt.Sprintf("api N=%d cols=%d", n, ncols))
+	}
+	nStall := 12
+	if tier == "thorough" {
+		nStall = 120
+	}
+	for i := 0; i < nStall; i++ {
+		n, ncols, rows := genCountingRows(rng)
+		for len(rows) < 40 { // far more rows than the trigger channel (4) holds
+			rows = append(rows, rows...)
+			for j := range rows {
+				rows[j].id = int64(j + 1)
+			}
+			if len(rows) == 0 {
+				break
+			}
+		}
+		if len(rows) == 0 {
+			continue
+		}
+		bs, err := countingStalled(n, ncols, rows)
+		if err != nil {
+			return err
+		}
+		o.Line("C09 W %d %d %d %s # %s", n, ncols, len(rows), rowsTok(rows), batchesTok(bs))
+		o.Count("api stalled consumer")
 	}
 	for i := 0; i < nSQL; i++ {
 		n, ncols, rows := genCountingRows(rng)
